@@ -490,7 +490,7 @@ where
 			let mut failed = 0;
 
 			// Fill the batch response with placeholder values.
-			for _ in 0..rps.len() {
+			for _ in id_range.clone() {
 				batch_response.push(Err(ErrorObject::borrowed(0, "", None)));
 			}
 
@@ -498,15 +498,8 @@ where
 				let id = rp.id().try_parse_inner_as_number()?;
 
 				let res = match ResponseSuccess::try_from(rp.into_inner()) {
-					Ok(r) => {
-						let v = serde_json::from_str(r.result.get()).map_err(Error::ParseError)?;
-						success += 1;
-						Ok(v)
-					}
-					Err(err) => {
-						failed += 1;
-						Err(err)
-					}
+					Ok(r) => Ok(serde_json::from_str(r.result.get()).map_err(Error::ParseError)?),
+					Err(err) => Err(err),
 				};
 
 				let maybe_elem = id
@@ -518,6 +511,15 @@ where
 					*elem = res;
 				} else {
 					return Err(InvalidRequestId::NotPendingRequest(id.to_string()).into());
+				}
+			}
+
+			// Count the entries, not the responses: the server may omit or repeat an answer.
+			for rp in &batch_response {
+				if rp.is_ok() {
+					success += 1;
+				} else {
+					failed += 1;
 				}
 			}
 
